@@ -177,6 +177,11 @@ def plan_for(prop, tier, seed):
                 eng("native-dbg", "clones", ["--shim", "shadow", "--max-big-len", 1 << 20], 1, seed + 1, weight=3)]
         jobs += sharded("miri", "clones", ["--max-big-len", 65536], 16, seed + 2, **MT)
         jobs += explore_mix(["sharing", "static", "default"], tier, seed + 3, q_hist=800, miri=False)
+        # "dropping either one leaves the other intact", also when clones are taken and dropped on other threads
+        jobs += [eng("native-rel", "conc", ["--shim", "shadow", "--programs", 1500 if quick else 20000, "--execs", 10 if quick else 40, "--spin", 200, "--prop", 8], 6, seed + 53, weight=3, label="native-rel(threads)")]
+        for i in range(4 if quick else 12):
+            jobs.append(eng("miri", "conc", ["--shim", "count", "--programs", 12 if quick else 40, "--execs", 3 if quick else 6, "--yield-permille", 300, "--prop", 8], 1, seed * 149 + i, weight=10, timeout=1500 if quick else 10000,
+                            miriflags="-Zmiri-seed=%d -Zmiri-preemption-rate=0.05" % (seed * 997 + i), label="miri(threads)"))
         p["jobs"] = jobs
     elif n == 9:
         jobs = [eng("native-rel", "construct", ["--shim", "shadow", "--reps", 4 if quick else 40], 1, seed, weight=3),
@@ -282,8 +287,9 @@ def plan_for(prop, tier, seed):
     else:
         return None
     for j in p["jobs"]:
-        if j["engine"] == "explore" or True:
-            j["args"] += ["--stat-props", str(n)]
+        j["args"] += ["--stat-props", str(n)]
+        if n in (5, 6) and "--announce" not in j["args"]:
+            j["args"] += ["--announce"]  # so that an aborted shard can name the case it was running
     return p
 
 
@@ -364,6 +370,16 @@ def aggregate(prop, plan, results):
                 viols.append(entry)
             else:
                 cross["sanitizer:" + rep["kind"][:60]] = cross.get("sanitizer:" + rep["kind"][:60], 0) + 1
+        # "never abort": a shard killed by the allocation-error handler is a finding of C05/C06, not a harness crash
+        if n in (5, 6) and r["rc"] in (-6, 134) and "memory allocation of" in r["err"]:
+            h = hists[-1] if hists else {}
+            viols.append({
+                "property": prop, "engine": job["engine"], "flavour": job["flavour"], "seed": r["seed"], "monitor": "process-abort",
+                "message": "the process was aborted by the allocation-error handler (%s) while running %s" % (
+                    (re.findall(r"memory allocation of \d+ bytes failed", r["err"]) or ["abort"])[0], h.get("case") or ("history %s" % h.get("hist"))),
+                "hist": h.get("hist"), "args": base_args, "signature": "process-abort:%s" % job["engine"],
+            })
+            vl = vl or [{"synthetic": True}]
         ok = bool(stat) and not r["timed_out"]
         if not ok and not vl and not real_reps:
             reason = "timeout" if r["timed_out"] else "exit %s" % r["rc"]
